@@ -27,6 +27,7 @@ def run(ctx):
     ctx.rule('C19.CACHED', lambda: rule_cached(ctx), 8)
     ctx.rule('C19.FEATURES', lambda: rule_features(ctx), 3)
     ctx.rule('C19.BUCKET', lambda: rule_bucket(ctx), 2)
+    ctx.rule('C19.TASKRESULT', lambda: rule_task_results(ctx), 1)
 
 
 def rule_filter(ctx):
@@ -372,3 +373,28 @@ def rule_features(ctx):
     ctx.check(okb, 'C19.FEATURES', 'electrumx/lib/peer.py :: Peer :: bad only set', 'a peer marked bad is never un-marked',
               f'`bad` is cleared at {[ctx.loc(h, s) for h, s in sets if norm(s.value) != "True"]}')
     return n + 1
+
+
+def rule_task_results(ctx):
+    '''_verify_peer runs its three checks as tasks of one TaskGroup.  aiorpcX's TaskGroup does not re-raise a task's exception
+    on exit: the BadPeerError of a failed check reaches _should_drop_peer only if the results are collected
+    (`async for task in g: task.result()`).  Without that the peer is recorded as good and advertised.'''
+    f = ctx.func('peers', 'PeerManager._verify_peer')
+    groups = [w for w in f.own_nodes() if isinstance(w, ast.AsyncWith) and any(
+        isinstance(i.context_expr, ast.Call) and norm(i.context_expr.func).endswith('TaskGroup') and i.optional_vars is not None for i in w.items)]
+    n = 0
+    for w in groups:
+        gv = norm([i.optional_vars for i in w.items if i.optional_vars is not None][0])
+        spawns = [c for c in walk_own(w) if isinstance(c, ast.Call) and norm(c.func) == f'{gv}.spawn']
+        if not spawns:
+            continue
+        n += 1
+        collects = [lp for lp in walk_own(w) if isinstance(lp, ast.AsyncFor) and norm(lp.iter) == gv and any(
+            isinstance(c, ast.Call) and isinstance(c.func, ast.Attribute) and c.func.attr == 'result' and norm(c.func.value) == norm(lp.target)
+            for c in walk_own(lp))]
+        ctx.check(bool(collects), 'C19.TASKRESULT', ctx.key(f, w, 'check results collected'),
+                  f'the results of the {len(spawns)} verification tasks are collected inside the group, so a failed check raises',
+                  f'the {len(spawns)} verification tasks are spawned but their results are never collected: a BadPeerError raised by the '
+                  'header / features check is lost, the peer gets last_good = now, is never marked bad and is advertised',
+                  loc=ctx.loc(f, w))
+    return n
